@@ -165,3 +165,53 @@ func verifExState(ex <-chan error) (state int, err error) {
 		return 0, nil
 	}
 }
+
+// drain plays the conforming broker: every pending transfer is acknowledged in
+// order; each acknowledgement must be accepted, close the exchange (if any)
+// and remove the record. Afterwards nothing is in flight.
+func (o *verifOut) drain(tag string) {
+	c := o.c
+	saved := o.store.faults
+	o.store.faults = 0
+	conn := &verifConn{}
+	<-c.writeSem
+	c.writeSem <- conn
+	ack := func(id uint) { c.peek = []byte{byte(id >> 8), byte(id)} }
+	for _, e := range o.q1 {
+		ack(e.id)
+		err := c.onPUBACK()
+		verifAssert(err == nil, tag+": the in-order PUBACK of a pending transfer is refused (it can never complete)")
+		if e.ex != nil {
+			st, _ := verifExState(e.ex)
+			verifAssert(st == 1 || st == 2 || st == 3, tag+": exchange not closed by PUBACK")
+		}
+	}
+	for _, e := range o.q2 {
+		if e.release {
+			ack(e.id)
+			err := c.onPUBCOMP()
+			verifAssert(err == nil, tag+": the in-order PUBCOMP of a pending PUBREL is refused (the transfer can never complete)")
+		}
+	}
+	for _, e := range o.q2 {
+		if !e.release {
+			ack(e.id)
+			err := c.onPUBREC()
+			verifAssert(err == nil, tag+": the in-order PUBREC of a pending PUBLISH is refused (the transfer can never complete)")
+			ack(e.id)
+			err = c.onPUBCOMP()
+			verifAssert(err == nil, tag+": the in-order PUBCOMP after PUBREC is refused (the transfer can never complete)")
+		}
+	}
+	verifAssert(len(c.atLeastOnce.queue) == 0 && len(c.exactlyOnce.queue) == 0, tag+": transfers left in flight after every acknowledgement arrived")
+	n := 0
+	for i := range o.store.slots {
+		if o.store.slots[i].present {
+			if o.store.slots[i].key&0x18000 == 0x8000 {
+				n++
+			}
+		}
+	}
+	verifAssert(n == 0, tag+": records left in the Persistence after every acknowledgement arrived")
+	o.store.faults = saved
+}
